@@ -81,7 +81,8 @@ def tlc(module, cfg=None, workers=None, env=None, timeout=3600, extra=(), cwd=SP
     """
     ensure_classes()
     meta = scratch("tlc")
-    cmd = ["java", "-XX:+UseParallelGC", "-Xss512m", "-Xmx" + heap]
+    # TLC makes an (empty) tlc-<n> directory under java.io.tmpdir on every start: keep it in the scratch directory
+    cmd = ["java", "-XX:+UseParallelGC", "-Xss512m", "-Xmx" + heap, "-Djava.io.tmpdir=" + meta]
     if dfs:
         cmd.append("-Dtlc2.tool.queue.IStateQueue=StateDeque")
     cmd += ["-cp", os.pathsep.join([CLASSES, TLA_JAR, CM_JAR]), "tlc2.TLC",
